@@ -119,6 +119,14 @@ func (b *bkState) yield(point string, cl *mqtt.Client) {
 	}
 }
 
+// isParked: the client's handler is held at a yield point after its read loop (bk.dropholdearly / bk.drophold): it
+// will not finish before it is released, so a connection that takes it over must not wait for it
+func (b *bkState) isParked(cl *mqtt.Client) bool {
+	b.tkMu.Lock()
+	defer b.tkMu.Unlock()
+	return b.holdsEarly[cl] != nil || b.holds[cl] != nil
+}
+
 // parkConn parks the calling (connecting) handler if a hold is registered under key
 func (b *bkState) parkConn(key string) {
 	b.tkMu.Lock()
@@ -582,7 +590,7 @@ func bkStartConn(b *bkState, a []string) (*bkConn, string) {
 	m := kvs(a[4:])
 	c1, c2 := net.Pipe()
 	c := &bkConn{n: n, c: c1, ver: ver, done: make(chan struct{}), aliases: map[int]string{}}
-	if old, ok := b.s.Clients.Get(string(unhx(a[3]))); ok && old.StopTime() == 0 {
+	if old, ok := b.s.Clients.Get(string(unhx(a[3]))); ok && old.StopTime() == 0 && !b.isParked(old) {
 		for _, oc := range b.conns {
 			if oc.cl == old {
 				b.tkMu.Lock()
@@ -995,7 +1003,7 @@ func init() {
 			if strings.HasPrefix(c.holdKey, "auth:") {
 				// the released handler may take over a live connection of the same client id: its CONNACK is
 				// followed by a wait for the old handler (same fixed schedule as bk.conn)
-				if old, ok := b.s.Clients.Get(id); ok && old.StopTime() == 0 {
+				if old, ok := b.s.Clients.Get(id); ok && old.StopTime() == 0 && !b.isParked(old) {
 					for _, oc := range b.conns {
 						if oc.cl == old {
 							b.tkMu.Lock()
